@@ -1,4 +1,4 @@
-import Sucds.Props.C14Lsb
+import Sucds.Proofs.C14Lsb
 /-! C14, continued: `msb`, and the property statement. -/
 set_option linter.unusedSimpArgs false
 set_option linter.unusedVariables false
